@@ -13,17 +13,19 @@ LAY_CPP = {0: "Kokkos::layout_left", 1: "Kokkos::layout_right", 2: "Kokkos::layo
 
 
 class PT:
-    def __init__(self, et, t, lay, pat, acc):
-        self.et, self.t, self.lay, self.pat, self.acc = et, t, lay, tuple(pat), acc
+    def __init__(self, et, t, lay, pat, acc, user=False):
+        self.et, self.t, self.lay, self.pat, self.acc, self.user = et, t, lay, tuple(pat), acc, user
 
     def cpp(self):
-        return "Kokkos::mdspan<%s, %s, %s, %s>" % (self.et, ext_type(self.t, self.pat), LAY_CPP[self.lay], ACC_CPP[self.acc] % self.et)
+        # user: a user layout whose mapping is an EMPTY class (row-major over all-static extents, nothing stored): to the model it is layout_right
+        lay = "drv::layout_static_right" if self.user else LAY_CPP[self.lay]
+        return "Kokkos::mdspan<%s, %s, %s, %s>" % (self.et, ext_type(self.t, self.pat), lay, ACC_CPP[self.acc] % self.et)
 
     def tokens(self):
         return [self.t, self.lay, len(self.pat)] + list(self.pat) + [self.acc]
 
     def desc(self):
-        return "%s/%s/%s/%s/acc%d" % (self.et, ITYS[self.t], LAYOUTS[self.lay], list(self.pat), self.acc)
+        return "%s/%s/%s/%s/acc%d" % (self.et, ITYS[self.t], "user-empty-right" if self.user else LAYOUTS[self.lay], list(self.pat), self.acc)
 
 
 def gen_program(rng, tier):
@@ -46,15 +48,25 @@ def gen_program(rng, tier):
         big = 2 ** 31 + rng.choice([0, 1, 5, 7]) if t0 == 5 else rng.choice([2 ** 31 + 5, 2 ** 32 + rng.choice([0, 3, 5]), 2 ** 33 + 1, 2 ** 31 - 1])
         es = [1 if t0 == 5 else rng.choice([1, 2, 3]) for _ in range(R)]
         es[rng.randrange(R)] = big
+    # empty-mapping programs: a user layout whose mapping stores nothing (all-static extents), mostly with the stateful accessor: under the
+    # [[no_unique_address]] emulation this is the only way to reach the compressed pair's 'first member empty' specialisation
+    uempty = (not focus) and (not huge) and rng.random() < 0.12
+    if uempty:
+        R = rng.choice([1, 2, 2, 3]); canon = 1
+        es = [rng.choice([1, 2, 3, 4]) for _ in range(R)]
     ss = left_strides(es) if canon == 0 else right_strides(es)
     if prod1(es) > imax(t0):
         return None
     acc = rng.choice([0, 0, 1])
+    if uempty:
+        acc = rng.choice([1, 1, 0])
     # a chain of 2-3 types, each constructible from the previous one
     types = []
     lay = rng.choice([canon, 2])
     if focus:
         acc, lay = 0, canon
+    if uempty:
+        lay = 1
     et = "int"
     for k in range(rng.choice([2, 3])):
         if k > 0:
@@ -68,6 +80,8 @@ def gen_program(rng, tier):
             if R <= 1 and lay != 2:
                 opts.append(1 - lay)
             lay = rng.choice(opts)
+            if uempty:
+                lay = 1
             t_cur = t_new
         else:
             t_cur = t0
@@ -82,7 +96,9 @@ def gen_program(rng, tier):
             pat = rand_pattern(rng, es, 0.5)
         if focus and k == 0:
             pat = list(rand_pattern(rng, es, 0.5)); q = rng.randrange(R - 1); pat[q] = es[q]; pat[q + 1] = DYN; pat = tuple(pat)
-        types.append(PT(et, t_cur, lay, pat, acc))
+        if uempty:
+            pat = tuple(es)
+        types.append(PT(et, t_cur, lay, pat, acc, user=uempty))
     # a second mapping value of type 0 (same type, different state): other dynamic extents and / or other strides
     ty0 = types[0]
     es2 = [e if p != DYN or rng.random() < 0.4 else rng.choice([1, 2, 3, 4]) for e, p in zip(es, ty0.pat)]
@@ -264,6 +280,8 @@ def gen(rng, tier):
         hist["rank=%d" % R] += 1
         if max(es + [0]) >= 2 ** 31 - 1:
             hist["huge extent (>= 2^31 - 1)"] += 1
+        if types[0].user:
+            hist["pools over a user layout with an EMPTY mapping%s" % (" and a stateful accessor" if types[0].acc else "")] += 1
         for t in types:
             hist["static-all" if all(p != DYN for p in t.pat) else "has-dynamic"] += 1
             hist["accessor=%s" % ("stateful" if t.acc else "default")] += 1
